@@ -291,3 +291,107 @@ func TestStructuredErrors(t *testing.T) {
 		return ErrCase{SQL: s, Entry: e}
 	})
 }
+
+// ---------------------------------------------------------------- an error does not depend on the statements before it
+
+type ScriptErrCase struct {
+	Before []string `json:"before"`
+	Stmt   string   `json:"stmt"`
+}
+
+func recoverySigs(sql string) ([]sig, int) {
+	stmts, errs := gosqlx.ParseWithRecovery(sql)
+	ss, _ := sigs(errs)
+	return ss, len(stmts)
+}
+
+func oracleScriptErr(c ScriptErrCase) error {
+	alone, nAlone := recoverySigs(c.Stmt)
+	script := strings.Join(append(append([]string{}, c.Before...), c.Stmt), " ;\n")
+	all, nAll := recoverySigs(script)
+	nBeforeErrs, nBeforeStmts := 0, 0
+	for _, b := range c.Before {
+		e, n := recoverySigs(b)
+		nBeforeErrs += len(e)
+		nBeforeStmts += n
+	}
+	if len(all) != nBeforeErrs+len(alone) || nAll != nBeforeStmts+nAlone {
+		return fmt.Errorf("statement %q alone gives %d trees and %d errors, after %d other statements the script gives %d trees / %d errors instead of %d / %d",
+			clipS(c.Stmt), nAlone, len(alone), len(c.Before), nAll, len(all), nBeforeStmts+nAlone, nBeforeErrs+len(alone))
+	}
+	for i, a := range alone {
+		g := all[nBeforeErrs+i]
+		if g.code != a.code || g.msg != a.msg {
+			return fmt.Errorf("statement %q fails alone with %s %q but after %d other statements with %s %q", clipS(c.Stmt), a.code, a.msg, len(c.Before), g.code, g.msg)
+		}
+	}
+	return nil
+}
+
+func clipS(s string) string {
+	if len(s) > 100 {
+		return s[:100] + "…"
+	}
+	return s
+}
+
+var scriptErrCheck = hx.NewCheck("error_independent_of_earlier_statements", oracleScriptErr)
+
+func TestErrorIndependentOfEarlierStatements(t *testing.T) {
+	hx.Rule("error_independent_of_earlier_statements", "recovery-parsed scripts: 1-4 earlier statements (valid, corrupted, failing deep inside nested constructs or sign chains) followed by a statement (invalid, or valid and nested exactly as deep as the limit allows); its verdict, error code and message must equal those it gets alone; non-trivial = an earlier statement fails; distinct = classes + sizes")
+	deepest := 0
+	for d := 1; d < 400; d++ {
+		if _, err := gosqlx.Parse("SELECT " + strings.Repeat("(", d) + "1" + strings.Repeat(")", d)); err != nil {
+			break
+		}
+		deepest = d
+	}
+	scriptErrCheck.Rapid(t, hx.N(2500, 150000), func(rt *rapid.T) ScriptErrCase {
+		n := rapid.IntRange(1, 4).Draw(rt, "nbefore")
+		var c ScriptErrCase
+		failing := false
+		var cl []string
+		for i := 0; i < n; i++ {
+			switch rapid.IntRange(0, 3).Draw(rt, "beforekind") {
+			case 0:
+				f := sqlgen.AllFeatures()
+				f.Flat, f.MaxDepth = true, 2
+				c.Before = append(c.Before, sqlgen.SQL(sqlgen.Statement(sqlgen.New(rt, f)).Toks))
+				cl = append(cl, "valid")
+			case 1:
+				d := rapid.IntRange(1, 70).Draw(rt, "d")
+				c.Before = append(c.Before, rapid.SampledFrom([]string{"SELECT " + strings.Repeat("- ", d) + "FROM t", "SELECT " + strings.Repeat("(", d) + "1 +",
+					"SELECT " + strings.Repeat("f(", d) + ")", "SELECT a FROM t WHERE " + strings.Repeat("NOT (", d) + "a = ", "SELECT " + strings.Repeat("CASE WHEN ", d) + "THEN"}).Draw(rt, "fam"))
+				failing = true
+				cl = append(cl, "deep_failure")
+			default:
+				f := sqlgen.AllFeatures()
+				f.Flat, f.MaxDepth = true, 2
+				toks := sqlgen.Statement(sqlgen.New(rt, f)).Toks
+				if len(toks) >= 2 {
+					toks = corrupt.Apply(rt, toks).Toks
+				}
+				c.Before = append(c.Before, sqlgen.SQL(toks))
+				failing = true
+				cl = append(cl, "corrupted")
+			}
+		}
+		switch rapid.IntRange(0, 2).Draw(rt, "stmtkind") {
+		case 0:
+			c.Stmt = "SELECT " + strings.Repeat("(", deepest) + "1" + strings.Repeat(")", deepest)
+			cl = append(cl, "stmt_at_depth_limit")
+		case 1:
+			c.Stmt = "SELECT a FROM t WHERE )"
+			cl = append(cl, "stmt_invalid")
+		default:
+			c.Stmt = "DELETE FROM t1 WHERE a = ( 1"
+			cl = append(cl, "stmt_invalid")
+		}
+		for i := range c.Before { // segments must not contain statement separators or statement-start words past their first token
+			c.Before[i] = strings.ReplaceAll(c.Before[i], ";", ",")
+		}
+		hx.Case("error_independent_of_earlier_statements", failing, strings.Join(cl, ","))
+		hx.Sample("error_independent_of_earlier_statements", c)
+		return c
+	})
+}
